@@ -19,6 +19,7 @@ ALL functions of the anchored modules of the property, not only over the functio
     stale system        a builder created from the ODE system read before the model was re-bound
     lost update         statements = statements.reassign(..) / model = model.replace(..) never read on some path to a return
     loop-carried flag   (advisory) a flag tested and cleared in an inner loop but initialised outside the outer one
+    visited break       `for x in neighbours: if x in seen: break` in a traversal that later does seen.add(x)
     stale compartment   cb.set_x(comp, ..) replaces the node; the old `comp` is handed to the builder again
     iterators compared  `c.append(product(..))` ... `x in c`: a collection of iterator objects is searched by identity
     unknown attribute   `self.x` read in a method although no class of the hierarchy (bases and subclasses, all inside the
@@ -159,6 +160,10 @@ def run(chk, repo, pid):
         for dname, a in lints.defaultdict_overwrites(f.node)[0]:
             found.append(('collector overwritten', a.lineno, unparse(a)[:80],
                           f'`{dname}` collects values per key; the assignment replaces what earlier iterations collected'))
+        for L_, b_, sn_ in lints.visited_breaks(f.node):
+            found.append(('visited break', b_.lineno, f'for {unparse(L_.target)} in {unparse(L_.iter)[:40]}: if .. in {sn_}: break',
+                          f'the first neighbour that was already visited ends the loop: the neighbours after it are never '
+                          f'examined (continue was meant)'))
         for mut_, use_, nm_ in lints.stale_compartment_handles(f.node):
             found.append(('stale compartment', use_.line, f'{mut_.text()[:50]} ... {use_.text()[:50]}',
                           f'`{nm_}` was replaced in the builder by the first call (which returns the new compartment); the second '
@@ -291,4 +296,4 @@ def run(chk, repo, pid):
                 chk.violation(Y0, f.module.rel, f.qualname, f'loop-carried flag `{v}`',
                               'tested and cleared in an inner loop, initialised outside the outer loop', line=M.lineno,
                               advisory=True)
-    chk.instance(Y0, f'{nfun} functions of {len(mods)} anchored modules scanned for 22 defect shapes', n=nfun)
+    chk.instance(Y0, f'{nfun} functions of {len(mods)} anchored modules scanned for 23 defect shapes', n=nfun)
